@@ -142,3 +142,57 @@ Proof.
   - vm_compute. congruence.
   - vm_compute. congruence.
 Qed.
+
+(** * the conjunctions stated in Properties.v *)
+Section Summary.
+Variables bits k : nat.
+Hypothesis Hb : 0 < bits.
+
+Lemma history_refines_both ops :
+  run_m bits (2 ^ k) (init_m bits (2 ^ k)) ops = s_run bits (s_init bits) ops
+  /\ forall st, wf2 bits k st -> run_m bits (2 ^ k) st ops = s_run bits (abs2 bits k st) ops.
+Proof. exact (conj (history_refines bits k Hb ops) (fun st Hst => run_refines bits k Hb ops st Hst)). Qed.
+
+Lemma padding_zero_inv_both ops :
+  (forall st, wf2 bits k st -> wf2 bits k (final_state bits k st ops))
+  /\ let st := final_state bits k (init_m bits (2 ^ k)) ops in
+     last_word_clean bits k (fst st) /\ last_word_clean bits k (snd st)
+     /\ length (fst st) = num_words bits (2 ^ k) /\ length (snd st) = num_words bits (2 ^ k).
+Proof.
+  exact (conj (fun st Hst => invariant_along_history bits k Hb ops st Hst) (padding_zero_inv bits k Hb ops)).
+Qed.
+
+Lemma observers_spec_all ws : wf bits k ws ->
+  count_m ws = s_count (abs bits k ws)
+  /\ all_m bits (2 ^ k) (ones (2 ^ k)) (padding_mask_inv bits (2 ^ k)) ws = s_all (abs bits k ws)
+  /\ any_m ws = s_any (abs bits k ws)
+  /\ none_m ws = s_none (abs bits k ws)
+  /\ (forall zero one, to_string_m bits (2 ^ k) (ones (2 ^ k)) ws zero one = s_to_string (abs bits k ws) zero one)
+  /\ (bits <= 64 -> to_ullong_m bits (2 ^ k) (ones (2 ^ k)) (ones 64) ws = s_value (abs bits k ws))
+  /\ (forall ws', wf bits k ws' -> words_eqb ws ws' = s_eq (abs bits k ws) (abs bits k ws'))
+  /\ (forall ws', wf bits k ws' -> abs bits k ws = abs bits k ws' -> ws = ws').
+Proof.
+  intros Hwf.
+  exact (conj (count_spec bits k Hb ws Hwf) (conj (all_spec bits k Hb ws Hwf) (conj (any_spec bits k Hb ws Hwf)
+        (conj (none_spec bits k Hb ws Hwf) (conj (fun z o => to_string_spec bits k Hb ws z o Hwf)
+        (conj (to_ullong_spec bits k Hb ws Hwf) (conj (fun ws' H' => eq_spec bits k Hb ws ws' Hwf H')
+        (fun ws' H' => abs_inj bits k Hb ws ws' Hwf H')))))))).
+Qed.
+
+Lemma constructors_spec_all :
+  (forall val, wf bits k (of_ullong bits (2 ^ k) (ones (2 ^ k)) (ones 64) val)
+               /\ abs bits k (of_ullong bits (2 ^ k) (ones (2 ^ k)) (ones 64) val) = s_of_ullong bits val)
+  /\ forall str pos n zero one,
+     match of_string bits (2 ^ k) (ones (2 ^ k)) (ones 64) str pos n zero one with
+     | Ok ws => wf bits k ws /\ s_of_string bits str pos n zero one = SOk (abs bits k ws)
+     | Contract => s_of_string bits str pos n zero one = SOutOfRange
+                   \/ s_of_string bits str pos n zero one = SInvalid
+     | _ => False
+     end.
+Proof. exact (conj (of_ullong_spec bits k Hb) (of_string_spec bits k Hb)). Qed.
+
+End Summary.
+
+Lemma popcount_fallback_both w x : bnd w x ->
+  popcount_fallback (ones w) w x = Some (popcount x) /\ popcount x = bitcount w x.
+Proof. intros Hb. exact (conj (popcount_fallback_width w x Hb) (popcount_bitcount w x Hb)). Qed.
